@@ -417,6 +417,34 @@ fn bases() -> Vec<(RefOnt, &'static str)> {
     f.edges = vec![(118, 1), (200, 118), (201, 118)];
     f.anns = vec![Facts::ann(Kind::Gene, 7, "SEVEN", Some(200)), Facts::ann(Kind::Omim, 7, "Seven (omim)", Some(201)), Facts::ann(Kind::Orpha, 8, "Eight (orpha)", Some(200))];
     out.push((RefOnt::derive(&f), "the same numeric record id in several kinds"));
+    // 7. consecutive term ids with gaps of one: record term lists and a parent list that an edit fills, empties
+    // or shifts by one (a membership test that treats a dense run of ids as an interval would not see it)
+    let mut f = Facts { version: (2024, 2, 29), ..Default::default() };
+    f.terms = vec![t(1, "All"), t(118, "Phenotypic abnormality"), t(10, "T10"), t(11, "T11"), t(12, "T12"), t(13, "T13"), t(14, "T14")];
+    f.edges = vec![(118, 1), (10, 118), (11, 118), (12, 118), (13, 118), (14, 10), (14, 11), (14, 13)];
+    f.anns = vec![
+        Facts::ann(Kind::Gene, 11, "GENE1", Some(10)),
+        Facts::ann(Kind::Gene, 11, "GENE1", Some(11)),
+        Facts::ann(Kind::Gene, 11, "GENE1", Some(13)),
+        Facts::ann(Kind::Omim, 600_001, "Disease one", Some(10)),
+        Facts::ann(Kind::Omim, 600_001, "Disease one", Some(12)),
+        Facts::ann(Kind::Omim, 600_001, "Disease one", Some(14)),
+        Facts::ann(Kind::Orpha, 77, "Orpha one", Some(11)),
+        Facts::ann(Kind::Orpha, 77, "Orpha one", Some(13)),
+    ];
+    out.push((RefOnt::derive(&f), "consecutive term ids with gaps"));
+    // 8. long names: disease names are not limited by the binary format (gene symbols and term names are, at 255
+    // bytes - they stay just below it here, so that a rename keeps them legal), so every comparison after a round trip must stay empty
+    let mut f = Facts { version: (2024, 2, 29), ..Default::default() };
+    f.terms = vec![t(1, "All"), t(118, "Phenotypic abnormality"), t(200, &"n".repeat(230))];
+    f.edges = vec![(118, 1), (200, 118)];
+    f.anns = vec![
+        Facts::ann(Kind::Gene, 11, &"G".repeat(230), Some(200)),
+        Facts::ann(Kind::Omim, 600_001, &format!("{} disease", "long ".repeat(60)), Some(200)),
+        Facts::ann(Kind::Orpha, 77, &"\u{e9}".repeat(200), Some(200)),
+        Facts::ann(Kind::Orpha, 78, &format!("{}\u{20ac}{}", "x".repeat(254), "y".repeat(40)), Some(118)),
+    ];
+    out.push((RefOnt::derive(&f), "long names"));
     out
 }
 
